@@ -280,6 +280,14 @@ def run(ck: Check, prog: Program) -> None:
             ck.ob(rule, f'{cr.cls.name}._send: {rule}', not bad, sample={'facts': facts} if rule == 'ONE-TRANSMISSION' else None)
         for rule, construct, line, msg in problems:
             ck.finding(rule, cr.send_impl.qualname, construct, cr.cls.module.rel, line, msg)
+    # ---- REQUEST-WIRE: the document on the wire has an id iff the request is a call (identity, so ids 0 and "" are kept) ---------
+    from .wire import REQUEST_SPEC, check_wire_shape
+    rtj = prog.func(V20 + '.Request.to_json')
+    ck.functions.add(rtj.qualname)
+    wp, _n = check_wire_shape(prog, rtj, REQUEST_SPEC)
+    ck.ob('REQUEST-WIRE', 'Request.to_json: jsonrpc, method always; id iff not None; params iff non-empty', not wp)
+    for construct, msg, line in wp:
+        ck.finding('REQUEST-WIRE', rtj.qualname, construct, rtj.module.rel, line, msg)
     # ---- IS-NOTIF-DEF ----------------------------------------------------------------------------------
     rn = prog.func(V20 + '.Request.is_notification')
     ok = any(isinstance(x, ast.Return) and norm(x.value) in ('self.id is None', 'self._id is None') for x in walk_own(rn.node))
@@ -303,6 +311,12 @@ def run(ck: Check, prog: Program) -> None:
         ck.finding('RESULT-ATTRIB', brf.qualname, f'batch results re-ordered by {reorder[0]}', brf.module.rel, reorder[1],
                    f'BatchResponse.result iterates `{reorder[2]}`: the values a batch returns are permuted relative to the calls '
                    f'(e.g. with a non-monotonic id generator), so the caller does not obtain the value of the function it called')
+    from .wire import ctor_precedence_problems as _cpp
+    _ci = prog.cls('pjrpc.common.exceptions.JsonRpcError')
+    _pp = _cpp(prog, _ci)
+    ck.ob('CTOR-PRECEDENCE', 'JsonRpcError.__init__: a given code / message wins over the class-level default', not _pp)
+    for _c, _m, _l in _pp:
+        ck.finding('CTOR-PRECEDENCE', _ci.qualname + '.__init__', _c, _ci.module.rel, _l, _m)
     # ---- IDGEN-TYPE -------------------------------------------------------------------------------------
     gm = prog.modules.get(GENS)
     if gm is None:
